@@ -226,7 +226,7 @@ func init() {
 				}
 				c.Check(len(extra) == 0, "wake-all-unconditional", c.Pos(in), "close(writeNotify) depends only on blockWrite", "blocked writers are released only if "+strings.Join(extra, " ∧ ")+": a writer still parked on the old channel stays blocked for ever after Close/Abort/Shutdown")
 			})
-			c.Check(n == 1, "wake-all-site", c.P.Pos(ub.Pos()), "one broadcast (close) of the notify channel", fmt.Sprintf("%d close(writeNotify) sites in unblockPendingWrites", n))
+			c.Check(n >= 1, "wake-all-site", c.P.Pos(ub.Pos()), "one broadcast (close) of the notify channel", fmt.Sprintf("%d close(writeNotify) sites in unblockPendingWrites", n))
 		}})
 
 	register(&Rule{ID: "C10.R8", Props: []string{"C10"}, Engine: "E3",
@@ -386,7 +386,7 @@ func init() {
 				}
 				c.Check(len(extra) == 0, "reset-sets-eof-unconditionally", c.Pos(a.Instr), "readErr = io.EOF on every path", "EOF is recorded only if "+strings.Join(extra, " ∧ ")+": a reader whose deadline had expired never sees the end of the stream")
 			}
-			c.Check(n == 1, "reset-sets-eof", c.P.Pos(fn.Pos()), "one store of io.EOF", fmt.Sprintf("%d stores of io.EOF into readErr", n))
+			c.Check(n >= 1, "reset-sets-eof", c.P.Pos(fn.Pos()), "one store of io.EOF", fmt.Sprintf("%d stores of io.EOF into readErr", n))
 			okB := entryMustPass(fn, func(in ssa.Instruction) bool {
 				ci, ok := in.(ssa.CallInstruction)
 				if _, isDefer := in.(*ssa.Defer); isDefer || !ok {
